@@ -8,6 +8,7 @@ mod ops_centroid;
 mod ops_closest;
 mod ops_determinism;
 mod ops_distance;
+mod ops_extra;
 mod ops_hull;
 mod ops_kernel;
 mod ops_linemeasure;
@@ -97,6 +98,8 @@ fn dispatch_case(cx: &mut Ctx, n: u64, case: &Value) {
         "hull" => ops_hull::hull_case(cx, n, case),
         "simplify" => ops_simplify::simplify_case(cx, n, case),
         "sweep" => ops_sweep::sweep_case(cx, n, case),
+        "extra_pair" => ops_extra::pair_case(cx, n, case),
+        "extra_seq" => ops_extra::seq_case(cx, n, case),
         "valid" => ops_valid::valid_case(cx, n, case),
         "linemeasure" => ops_linemeasure::linemeasure_case(cx, n, case),
         "linemeasure_general" => ops_linemeasure::linemeasure_general_case(cx, n, case),
